@@ -338,6 +338,9 @@ func decodeLen(highThreeBits, lowFiveBits byte, additional []byte) (int, error) 
 		length = uint64(lowFiveBits)
 	}
 	if highThreeBits == mapMajorType {
+		if length >= MaxArrayDecodeLength {
+			return 0, fmt.Errorf("length exceeds max size: %d", length)
+		}
 		length *= 2
 	}
 	if length > math.MaxInt || length >= MaxArrayDecodeLength {
